@@ -9,6 +9,7 @@ import (
 	"strconv"
 	"strings"
 	"sync"
+	"sync/atomic"
 	"time"
 
 	"gircverif/drive"
@@ -29,7 +30,8 @@ import (
 //	command], nT, nT x [count, count x [op]], nCert, nCert x [action], observed actions
 //
 // flags: b background, t AddTmp, d AddTmp with a deadline, i internal, g gated (see hangup).
-// recover: "1" RecoverFunc installed; "h" appended: the server hangs up while event 0 is still
+// recover: "1" RecoverFunc installed; "o" appended: a burst larger than the receive queue arrives
+// while event 0 is still being handled; "h" appended: the server hangs up while event 0 is still
 // being handled (everything it sent before must still be delivered); "t": the run stalled.
 // op:     a<h> Add.. creating handler h | m<h> Remove(cuid of h) | k<j> Clear(clear command j) | K ClearAll
 // action: v.n arrive | d.n deliver | s.n.k snapshot of phase k | g.n.h bg wrapper signals |
@@ -117,6 +119,7 @@ func (o trOp) String() string {
 type trScenario struct {
 	timedOut bool // the run stalled (twice): the trace may lack late actions
 	hangup   bool // the server sends all events and hangs up while event 0 is still being handled
+	overflow bool // the server sends more events than the receive queue holds while event 0 is still being handled
 	recover  bool
 	handlers []trHandler
 	init     []int
@@ -216,6 +219,9 @@ func trEncode(sc *trScenario, cert, obs []trAct) Case {
 	if sc.hangup {
 		c[0] += "h"
 	}
+	if sc.overflow {
+		c[0] += "o"
+	}
 	c = append(c, strconv.Itoa(len(sc.handlers)))
 	for _, h := range sc.handlers {
 		c = append(c, h.cmd, h.flags())
@@ -276,6 +282,7 @@ func trDecode(c Case) (sc *trScenario, cert, obs []trAct, ok bool) {
 	sc.recover = strings.Contains(rc, "1")
 	sc.timedOut = strings.Contains(rc, "t")
 	sc.hangup = strings.Contains(rc, "h")
+	sc.overflow = strings.Contains(rc, "o")
 	for j := 0; j < nh; j++ {
 		cmd, a := next()
 		fl, b := next()
@@ -453,7 +460,7 @@ func trRun(sc *trScenario, seed int64, procs int) (obs []trAct, stalled bool) {
 	}()
 	timedOut := false
 	gate := make(chan struct{}) // closed when gated handlers may return
-	if !sc.hangup {
+	if !sc.hangup && !sc.overflow {
 		close(gate)
 	}
 
@@ -624,46 +631,82 @@ func trRun(sc *trScenario, seed int64, procs int) (obs []trAct, stalled bool) {
 			trStall(9)
 		}
 	}
-	for n, e := range sc.events {
-		if !feedOK {
-			break
-		}
-		if x := trMix(seed, 6, n, 0); x%4 == 0 {
-			time.Sleep(time.Duration(x>>8%1500) * time.Microsecond)
-		}
-		if e.nick != cur {
-			barriers++
-			tok := "c06nick" + strconv.Itoa(barriers)
-			if !send(":"+cur+"!user@host NICK "+e.nick) || !send("PING :"+tok) {
+	var written int64 // lines of the scenario the client has taken off the wire
+	feed := func() {
+		for n, e := range sc.events {
+			if !feedOK {
 				break
 			}
-			cur = e.nick
-			if !c06Await(func() bool {
-				for _, l := range s.Since(0) {
-					if strings.HasPrefix(l, "PONG") && strings.HasSuffix(strings.TrimSpace(l), tok) {
-						return true
-					}
+			if x := trMix(seed, 6, n, 0); x%4 == 0 && !sc.overflow {
+				time.Sleep(time.Duration(x>>8%1500) * time.Microsecond)
+			}
+			if e.nick != cur {
+				barriers++
+				tok := "c06nick" + strconv.Itoa(barriers)
+				if !send(":"+cur+"!user@host NICK "+e.nick) || !send("PING :"+tok) {
+					break
 				}
-				return false
-			}, progress, c06StallLimit) {
-				timedOut = true
-				trStall(10)
-				break
+				cur = e.nick
+				if !c06Await(func() bool {
+					for _, l := range s.Since(0) {
+						if strings.HasPrefix(l, "PONG") && strings.HasSuffix(strings.TrimSpace(l), tok) {
+							return true
+						}
+					}
+					return false
+				}, progress, c06StallLimit) {
+					timedOut = true
+					trStall(10)
+					break
+				}
 			}
+			text := strconv.Itoa(n)
+			tags := ""
+			if x := trMix(seed, 7, n, 0); x%8 == 0 {
+				// a long line (legal with message tags): 4000-9000 bytes, still one event
+				text = text + " " + strings.Repeat("x", 2500+int(x>>8%5000)) + " " + text
+				tags = "@c06=" + strings.Repeat("t", 1000+int(x>>24%1500)) + " "
+			}
+			line := tags + ":" + e.src + " " + e.cmd + " " + cur + " :" + text
+			if e.cmd == "PRIVMSG" || e.cmd == "NOTICE" {
+				line = tags + ":" + e.src + "!user@host " + e.cmd + " #chan :" + text
+			}
+			log.stamp(trAct{kind: 'v', n: n})
+			feedOK = send(line)
+			atomic.AddInt64(&written, 1)
 		}
-		text := strconv.Itoa(n)
-		tags := ""
-		if x := trMix(seed, 7, n, 0); x%8 == 0 {
-			// a long line (legal with message tags): 4000-9000 bytes, still one event
-			text = text + " " + strings.Repeat("x", 2500+int(x>>8%5000)) + " " + text
-			tags = "@c06=" + strings.Repeat("t", 1000+int(x>>24%1500)) + " "
+	}
+	if sc.overflow {
+		// Burst behind a held-back foreground handler: the server writes more lines than the
+		// receive queue (25) holds while the function of the gated handler has not returned.
+		// 26 writes complete in any case (event 0 is being handled, 25 are queued); that is the
+		// condition the gate waits for.  The pause after it only lets a client that takes lines
+		// faster than it may (the rest of the burst) do so; it decides nothing.
+		fed := make(chan struct{})
+		go func() { feed(); close(fed) }()
+		if !c06Await(func() bool { return atomic.LoadInt64(&written) >= 26 || len(sc.events) < 27 },
+			func() string { return progress() + "/" + itoa(int(atomic.LoadInt64(&written))) }, c06StallLimit) {
+			timedOut = true
+			trStall(11)
 		}
-		line := tags + ":" + e.src + " " + e.cmd + " " + cur + " :" + text
-		if e.cmd == "PRIVMSG" || e.cmd == "NOTICE" {
-			line = tags + ":" + e.src + "!user@host " + e.cmd + " #chan :" + text
+		for until := time.Now().Add(50 * time.Millisecond); int(atomic.LoadInt64(&written)) < len(sc.events) && time.Now().Before(until); {
+			time.Sleep(200 * time.Microsecond)
 		}
-		log.stamp(trAct{kind: 'v', n: n})
-		feedOK = send(line)
+		close(gate)
+		done := false
+		if !c06Await(func() bool {
+			select {
+			case <-fed:
+				done = true
+			default:
+			}
+			return done
+		}, func() string { return progress() + "/" + itoa(int(atomic.LoadInt64(&written))) }, c06StallLimit) {
+			timedOut = true
+			trStall(12)
+		}
+	} else {
+		feed()
 	}
 	regsDone := make(chan struct{})
 	go func() { regs.Wait(); close(regsDone) }()
@@ -1422,9 +1465,25 @@ func genNickScenario(r *rand.Rand) *trScenario {
 	return sc
 }
 
+// genOverflowScenario: as a hang-up scenario, but the server stays and sends 40-60 events (the
+// receive queue holds 25) while the function of handler 0 has not returned for event 0.  The
+// events must still be dispatched one by one in the server's order.
+func genOverflowScenario(r *rand.Rand) *trScenario {
+	sc := genHangupScenario(r)
+	sc.hangup, sc.overflow = false, true
+	for n := len(sc.events); n < 40+r.Intn(21); n++ {
+		cmd := Pick(r, "FOO", "FOO", "BAR", "PRIVMSG", "NOTICE", "BAZ")
+		echo := (cmd == "PRIVMSG" || cmd == "NOTICE") && r.Intn(3) == 0
+		sc.events = append(sc.events, trEv(cmd, echo))
+	}
+	return sc
+}
+
 func genTraceCase(r *rand.Rand) Case {
 	var sc *trScenario
-	switch r.Intn(5) {
+	switch r.Intn(6) {
+	case 5:
+		sc = genOverflowScenario(r)
 	case 0:
 		sc = genHangupScenario(r)
 	case 1:
